@@ -16,10 +16,10 @@ def main():
     a = ap.parse_args()
     seed = int(os.environ.get("VERIF_SEED", "0"))
     try:
-        if a.prop in ("C01", "C02", "C03", "C17", "C18"):
+        if a.prop in ("C01", "C02", "C03", "C17", "C18", "C13"):
             import suite_mgr
             return suite_mgr.run(a.prop, a.tier, seed, a.replay)
-        if a.prop in ("C07", "C08"):
+        if a.prop in ("C07", "C08", "C14"):
             import suite_table
             return suite_table.run(a.prop, a.tier, seed, a.replay)
         if a.prop in ("C04", "C05", "C12", "C06", "C11"):
@@ -28,6 +28,15 @@ def main():
         if a.prop in ("C09", "C10", "C15"):
             import suite_opt
             return suite_opt.run(a.prop, a.tier, seed, a.replay)
+        if a.prop == "C19":
+            import suite_madx
+            return suite_madx.run(a.prop, a.tier, seed, a.replay)
+        if a.prop == "C20":
+            import suite_c20
+            return suite_c20.run(a.prop, a.tier, seed, a.replay)
+        if a.prop == "C16":
+            import suite_lin
+            return suite_lin.run(a.prop, a.tier, seed, a.replay)
         print("unknown property", a.prop)
         return 2
     except C.Infra as e:
